@@ -1,8 +1,101 @@
-(* C01 -- placeholder while the theorems are being written *)
+(* C01 -- Intrinsic value functions resolve to their CloudFormation-defined value.
+   Statements only; proofs are [exact] of lemmas in Resolver/Spec.v and Resolver/SubFacts.v. *)
 From Coq Require Import List Bool NArith ZArith.
-From PV Require Import Base.Str Base.Value Resolver.Consts Resolver.Text Resolver.Resolve.
+From PV Require Import Base.Str Base.Value Resolver.Consts Resolver.Text Resolver.Resolve Resolver.Spec Resolver.SubFacts.
 Import ListNotations.
 Local Open Scope N_scope.
-Example C01_ex_tokens : sub_tokens [120;36;123;65;125;121;36;123;33;65;125;122]
-  = [TText 120; TVar [65]; TText 121; TBang [65]; TText 122].
+
+(* The executable model computes EXACTLY the declarative big-step relation [Eval] (one rule per construct, any
+   nesting depth, anywhere in lists and objects): sound, complete, hence deterministic. *)
+Theorem C01_eval_iff : forall e v r, resolve e v = Ok r <-> Eval e v r.
+Proof. exact resolve_iff_eval. Qed.
+Print Assumptions C01_eval_iff.
+
+Theorem C01_deterministic : forall e v a b, Eval e v a -> Eval e v b -> a = b.
+Proof. exact eval_deterministic. Qed.
+Print Assumptions C01_deterministic.
+
+(* Fn::Sub: the text is cut into literal characters and placeholders without losing, duplicating or reordering anything ... *)
+Theorem C01_sub_tokens_partition : forall text, concat (map tok_src (sub_tokens text)) = text.
+Proof. exact sub_tokens_partition. Qed.
+Print Assumptions C01_sub_tokens_partition.
+
+(* ... and the result is the concatenation of each token rendered exactly once, left to right *)
+Theorem C01_sub_once : forall e text custom r,
+  do_sub e text custom = Ok (VStr r) <->
+  exists pieces, Forall2 (fun t p => render_tok e custom t = Ok p) (sub_tokens text) pieces /\ r = concat pieces.
+Proof. exact sub_once. Qed.
+Print Assumptions C01_sub_once.
+
+(* inserted text is never scanned again *)
+Theorem C01_sub_no_rescan : forall e custom n s, valid_name n -> hd 0 n <> 33 ->
+  render_var e custom n = Ok s -> do_sub e (36 :: 123 :: n ++ [125]) custom = Ok (VStr s).
+Proof. exact sub_no_rescan. Qed.
+Print Assumptions C01_sub_no_rescan.
+
+(* ${!literal} is kept as the literal ${literal} *)
+Theorem C01_sub_bang : forall e custom n, render_tok e custom (TBang n) = Ok (36 :: 123 :: n ++ [125]).
+Proof. exact render_bang. Qed.
+Print Assumptions C01_sub_bang.
+
+(* variables are bound first from the expression's own map, then from the parameters; unbound ones stay as written *)
+Theorem C01_sub_local_first : forall e custom n x, lookup n custom = Some x ->
+  render_tok e custom (TVar n) = (x' <- normalize (params e) x ;; match x' with VStr s => Ok s | _ => Err EUndefined end).
+Proof. exact render_local_first. Qed.
+Print Assumptions C01_sub_local_first.
+Theorem C01_sub_param : forall e custom n x, lookup n custom = None -> lookup n (params e) = Some x ->
+  render_tok e custom (TVar n) = (x' <- normalize (params e) x ;; match x' with VStr s => Ok s | _ => Err EUndefined end).
+Proof. exact render_param. Qed.
+Print Assumptions C01_sub_param.
+Theorem C01_sub_unbound : forall e custom n, lookup n custom = None -> lookup n (params e) = None ->
+  render_tok e custom (TVar n) = Ok (36 :: 123 :: n ++ [125]).
+Proof. exact render_unbound. Qed.
+Print Assumptions C01_sub_unbound.
+
+(* undefined references yield the stable placeholder text instead of an error *)
+Theorem C01_ref_undefined : forall e body s,
+  resolve e body = Ok (VStr s) -> lookup s (params e) = None ->
+  resolve e (VDict [(K_Ref, body)]) = Ok (VStr (undefined_param s))
+  /\ resolve e (VDict [(K_ImportValue, body)]) = Ok (VStr (undefined_param s)).
+Proof. exact ref_undefined. Qed.
+Print Assumptions C01_ref_undefined.
+
+Theorem C01_ref_defined : forall e body s x,
+  resolve e body = Ok (VStr s) -> lookup s (params e) = Some x ->
+  resolve e (VDict [(K_Ref, body)]) = normalize (params e) x.
+Proof. exact ref_defined. Qed.
+Print Assumptions C01_ref_defined.
+
+Theorem C01_find_in_map : forall e m k1 k2, mappings_wf e ->
+  do_find_in_map e (VStr m) (VStr k1) (VStr k2) =
+  Ok (match mapping_leaf e m k1 k2 with Some leaf => leaf | None => VStr (undefined_mapping m k1 k2) end).
+Proof. exact find_in_map_spec. Qed.
+Print Assumptions C01_find_in_map.
+
+(* an out-of-range Fn::Select (negative indices included) yields an empty list *)
+Theorem C01_select : forall s ls z, parse_int s = Some z ->
+  do_select (VStr s) (VList ls) =
+  Ok (if (0 <=? z)%Z && (z <? Z.of_nat (length ls))%Z then nth (Z.to_nat z) ls (VList []) else VList []).
+Proof. exact select_spec. Qed.
+Print Assumptions C01_select.
+
+(* ---- non-vacuity and the witnesses of the repaired defects ---- *)
+Definition e0 : env := {| params := [([65], VStr [49]); ([66], VStr [36;123;65;125])]; mappings := []; conds := fun _ => Ok false |}.
+(* "x${A}y${!A}z" with A = "1"  -->  "x1y${A}z" *)
+Example C01_ex_bang : resolve e0 (VDict [(K_Sub, VStr [120;36;123;65;125;121;36;123;33;65;125;122])])
+  = Ok (VStr [120;49;121;36;123;65;125;122]).
+Proof. vm_compute. reflexivity. Qed.
+(* "${B}-${A}" with B = "${A}"  -->  "${A}-1": the inserted "${A}" is not substituted again *)
+Example C01_ex_no_rescan : resolve e0 (VDict [(K_Sub, VStr [36;123;66;125;45;36;123;65;125])])
+  = Ok (VStr [36;123;65;125;45;49]).
+Proof. vm_compute. reflexivity. Qed.
+(* [Sub ["${V}", {V: "l"}], Ref V]  -->  ["l", "UNDEFINED_PARAM_V"]: the local variable is invisible outside *)
+Example C01_ex_scope :
+  resolve e0 (VList [VDict [(K_Sub, VList [VStr [36;123;86;125]; VDict [([86], VStr [108])]])]; VDict [(K_Ref, VStr [86])]])
+  = Ok (VList [VStr [108]; VStr (undefined_param [86])]).
+Proof. vm_compute. reflexivity. Qed.
+Example C01_ex_select_negative : resolve e0 (VDict [(K_Select, VList [VInt (-1); VList [VStr [97]; VStr [98]]])]) = Ok (VList []).
+Proof. vm_compute. reflexivity. Qed.
+Example C01_ex_nested : resolve e0 (VDict [(K_Join, VList [VStr [45]; VList [VDict [(K_Ref, VStr [65])]; VDict [(K_Base64, VStr [97])]; VBool true]])])
+  = Ok (VStr [49;45;89;81;61;61;45;116;114;117;101]).
 Proof. vm_compute. reflexivity. Qed.
